@@ -39,7 +39,7 @@ class Fault(object):
 
 class PipeCore(object):
     def __init__(self, dev, rec=None, clock=None, frag=None, wcap=None, stall='raise', tick=0.0, default_timeout=10.0, fault=None,
-                 log_io=False, exc_timeout=None):
+                 log_io=False, exc_timeout=None, rtype=None):
         self.dev = dev
         self.rec = rec or dev.rec
         self.clock = clock or VClock()
@@ -50,6 +50,8 @@ class PipeCore(object):
         self.default_timeout = default_timeout
         self.fault = fault or Fault()
         self.log_io = log_io
+        self.rtype = rtype        # what bulk_read hands out: None (bytes) | 'bytearray' | 'array' (array('B'), as PyUSB does) | 'memoryview' (a view of a receive buffer that is reused by the next read)
+        self._rbuf = None
         self.exc_timeout = exc_timeout or timeout_class()
         self.cur = b''
         self.cur_meta = None
@@ -239,6 +241,28 @@ class PipeCore(object):
         self.dev.feed(h['raw'])
 
 
+def shape(core, b):
+    """The bytes of one bulk_read in the container type the transport is configured to hand out."""
+    t = core.rtype
+    if not t or not isinstance(b, (bytes, bytearray)):
+        return b
+    if t == 'bytearray':
+        return bytearray(b)
+    if t == 'array':
+        import array
+        return array.array('B', bytes(b))
+    if t == 'memoryview':
+        if core._rbuf is None:
+            core._rbuf = bytearray(1024 * 1024 + 64)
+        if len(b) > len(core._rbuf):
+            return bytes(b)
+        core._rbuf[:len(b)] = b
+        for i in range(len(b), min(len(b) + 32, len(core._rbuf))):
+            core._rbuf[i] = 0xEE          # what lies behind the valid part is garbage
+        return memoryview(core._rbuf)[:len(b)]
+    raise ValueError(t)
+
+
 class Watchdog(BaseException):
     """Raised when an operation exceeds its transport-call budget (a hang in virtual time)."""
 
@@ -266,7 +290,7 @@ def make_transport_classes():
         def bulk_read(self, numbytes, transport_timeout_s):
             if self.gate:
                 self.gate.before_read(self.core)
-            return self.core.read(numbytes, transport_timeout_s)
+            return shape(self.core, self.core.read(numbytes, transport_timeout_s))
 
         def bulk_write(self, data, transport_timeout_s):
             if self.gate:
@@ -287,7 +311,7 @@ def make_transport_classes():
         async def bulk_read(self, numbytes, transport_timeout_s):
             if self.gate:
                 await self.gate.before_read_async(self.core)
-            return self.core.read(numbytes, transport_timeout_s)
+            return shape(self.core, self.core.read(numbytes, transport_timeout_s))
 
         async def bulk_write(self, data, transport_timeout_s):
             if self.gate:
